@@ -37,5 +37,35 @@ u8 _ZN8Pistache9match_rawEPKvmRNS_12StreamCursorE(u8* pat, u64 m, u8* c) {
   if (CC_AVAIL(c) < m) return 0;
   for (u64 i = 0; i < m; i++) if (CC_SB(c)->gptr[i] != pat[i]) return 0;
   CC_SB(c)->gptr += m; return 1; }
+/* match_string(str, len, cursor, cs) as proven by cursor_string (patterns <= PATMAX bytes there): succeeds iff the literal is a
+ * prefix of the available bytes (byte-wise for Sensitive, C-locale case folding for Insensitive), consumes it on success */
+u8 _ZN8Pistache12match_stringEPKcmRNS_12StreamCursorENS_15CaseSensitivityE(u8* pat, u64 m, u8* c, u32 cs) {
+  __CPROVER_assert(m <= 24, "match_string contract: literal of at most 24 bytes");
+  if (CC_AVAIL(c) < m) return 0;
+  for (u64 i = 0; i < 24; i++) if (i < m) { u8 x = CC_SB(c)->gptr[i], y = pat[i]; if (cs == 0 ? x != y : cc_lc(x) != cc_lc(y)) return 0; }
+  CC_SB(c)->gptr += m; return 1; }
+/* match_literal(ch, cursor, cs) as proven by cursor_literal */
+u8 _ZN8Pistache13match_literalEcRNS_12StreamCursorENS_15CaseSensitivityE(u8 ch, u8* c, u32 cs) {
+  if (CC_AVAIL(c) < 1) return 0;
+  u8 x = CC_SB(c)->gptr[0]; if (cs == 0 ? x != ch : cc_lc(x) != cc_lc(ch)) return 0;
+  CC_SB(c)->gptr += 1; return 1; }
+/* skip_whitespaces(cursor) as proven by cursor_skipws: stops at the first delivered byte that is neither ' ' nor TAB */
+void _ZN8Pistache16skip_whitespacesERNS_12StreamCursorE(u8* c) {
+  u8* p = CC_SB(c)->gptr; u8* e = CC_SB(c)->egptr;
+  while (p != e && (*p == ' ' || *p == 9)) p++;
+  CC_SB(c)->gptr = p; }
+/* match_double(&val, cursor): strtod on a NUL-terminated COPY of the remaining bytes (what the real code does since af1a923;
+ * proven for the real code by cursor_double: same value, same advance, nothing consumed without a numeral) */
+#ifdef VP_LIBC_H
+#ifndef CC_DMAX
+#define CC_DMAX 24
+#endif
+u8 _ZN8Pistache12match_doubleEPdRNS_12StreamCursorE(u8* val, u8* c) {
+  u64 n = CC_AVAIL(c); __CPROVER_assert(n <= CC_DMAX, "match_double contract: at most CC_DMAX bytes remain (harness bound)");
+  u8 tmp[CC_DMAX + 1]; for (u64 i = 0; i < CC_DMAX; i++) tmp[i] = i < n ? CC_SB(c)->gptr[i] : 0; tmp[CC_DMAX] = 0;
+  u8* end = 0; double v = x_strtod(tmp, (u8*)&end); *(double*)val = v;
+  if (end == tmp) return 0;
+  CC_SB(c)->gptr += (u64)(end - tmp); return 1; }
+#endif
 #endif
 #endif
